@@ -292,6 +292,12 @@ pub unsafe extern "C" fn kill(pid: i32, sig: i32) -> i32 {
         }
         return 0;
     }
+    if ACTIVE.load(Ordering::SeqCst) && POPEN_MODE.load(Ordering::SeqCst) {
+        // a signal aimed at anything but the child: record it, never deliver it
+        sim(&format!("fkill {} {}", pid, sig));
+        set_errno(libc::ESRCH);
+        return -1;
+    }
     libc::syscall(libc::SYS_kill, pid, sig) as i32
 }
 
